@@ -325,7 +325,7 @@ def run_c05(tier, budget, rnd, res, script, post):
     # the "nothing known" bounds −inf / +inf (no bound computation has run yet).  Its result (inf / nan) is not judged; what is judged
     # is every ordinary game evaluated AFTER it in this process — per-process state must not remember the earlier game.
     from incomplete_cooperative.game import IncompleteCooperativeGame as _ICG
-    for n_p in range(2, 15):
+    for n_p in range(14, 1, -1):
         gp = _ICG(n_p)
         gp.set_value(float(rnd.randint(1, 9)), Coalition(2 ** n_p - 1))
         gp.set_upper_bounds(_np.full(2 ** n_p, _np.inf))
@@ -543,7 +543,6 @@ def run_c06(tier, budget, rnd, res, script, post):
     # a large player count comes FIRST and out of ascending order (12 before the small ones; thorough also 10 → 13 → 11):
     # per-process tables that grow with n (factorials, memoised structures) are then extended by several entries at once
     big = [12] if tier == "quick" else [12, 10, 13, 11]
-    every_n_shapley(res, rnd, range(7, 17) if tier == "quick" else range(7, 19))
     wide_game_case(res, rnd, "C06", 17)
     if tier != "quick":
         wide_game_case(res, rnd, "C06", 18)
@@ -733,6 +732,9 @@ def run_c06(tier, budget, rnd, res, script, post):
 
 # ------------------------------------------------------------------------------------------------
 # C07 (gap functions)
+    # LAST, and from the largest player count down: tables that grow with n are then extended by many entries in one call
+    every_n_shapley(res, rnd, range(16, 6, -1) if tier == "quick" else range(18, 6, -1))
+
 
 def run_c07(tier, budget, rnd, res, script, post):
     from incomplete_cooperative.exploitability import compute_exploitability
